@@ -155,7 +155,7 @@ type rawState struct {
 	reads     []rawRead
 	writes    []*rawWrite
 	curWrite  map[int]*rawWrite // by writer task: WriteTo calls may run concurrently
-	stopErr   error // what the link reported when the reader stopped (nil: still running)
+	stopErr   error             // what the link reported when the reader stopped (nil: still running)
 	linkReads int
 	curBuf    int
 }
